@@ -90,6 +90,14 @@ def search(ctx):
     for i in range(n):
         kind = int(rng.integers(0, 5))
         sc = [T.rand_sphere, T.rand_layered, T.rand_spheres, T.rand_spheroid, T.rand_cylinder][kind](rng)
+        if i % 10 == 3:
+            # shapes with a TIE between their parameters: a spheroid with exactly equal semi-axes, a cylinder as tall as wide
+            from holopy.scattering.scatterer import Spheroid as _Sph, Cylinder as _Cyl
+            a_ = float(rng.uniform(0.3, 0.6))
+            nn_ = complex(float(rng.uniform(1.45, 1.65)), float(rng.choice([0.0, 0.02])))
+            rot_ = (0.0, float(rng.uniform(0, math.pi / 2)), float(rng.uniform(0, math.pi)))
+            c_ = (float(rng.uniform(0, 2)), float(rng.uniform(0, 2)), float(rng.uniform(5, 12)))
+            sc = _Sph(n=nn_, r=(a_, a_), center=c_, rotation=rot_) if (i // 10) % 2 == 0 else _Cyl(n=nn_, d=2 * a_, h=2 * a_, center=c_, rotation=rot_)
         ths = T.theories_for(sc, rng, lens=True)
         name, mk = ths[rng.integers(0, len(ths))]
         dyadic = rng.random() < 0.5
